@@ -48,6 +48,11 @@ def jobs(tier):
                       fp=UNSTASH_FP, native=NATIVE_U,
                       symbolic=["n (size_t, full width)", "clock values"],
                       bounds="stashed=%d, handler stashes the oldest event again during the unstash" % k, timeout=900, **common))
+    for k in (3, 4):
+        d = {"NS": k, "NS_FIXED": k, "VF_EVT_DTOR": EVT_DTOR, "VF_NESTED": None}
+        js.append(Job("C16.unstash.ns%d.nested" % k, "l1/c16_unstash.c", defines=d, unwind=2 * k + 4, unwindset=RECUR,
+                      fp=UNSTASH_FP, native=NATIVE_U, symbolic=["clock values", "priorities"],
+                      bounds="stashed=%d, outer unstash(2) whose handler calls unstash(1)" % k, timeout=900, **common))
     d = {"NS": 2, "VF_EVT_DTOR": EVT_DTOR, "VF_BECOME": None}
     js.append(Job("C16.unstash.sym2", "l1/c16_unstash.c", defines=d, unwind=6, unwindset=RECUR, fp=UNSTASH_FP,
                   native=NATIVE_U, symbolic=["number stashed (0..2)", "n (size_t, full width)", "become() installed"],
